@@ -84,10 +84,7 @@ def build_case(Ls, Rs, opts):
         coq_list(["(%d, %s)" % (i, coq_str(t)) for i, t in rt.items()]),
         coq_list(["(%d, %d)" % p for p in matches]), sterm)
     # prefix policy: bindings of the left root, then those the right root contributes
-    pe = {}
-    for m in (run.lns, run.rns):
-        for k, v in m.items():
-            pe.setdefault(v, k)
+    pe = penv_of(run.lns, run.rns)
     pet = coq_list(["(%s, %s)" % (coq_str(u), lib.coq_ostr(p)) for u, p in pe.items()])
     if isinstance(raw, str):
         gt = "None"
@@ -96,6 +93,24 @@ def build_case(Ls, Rs, opts):
         gt = "(Some %s)" % coq_list([coq_gaction(a) for a in raw])
     term = "(%s, %s, %s)" % (term, pet, gt)
     return {"term": term, "desc": desc, "matches": matches, "raw": raw, "run": run, "c07": c07, "laws": laws}
+
+
+def penv_of(lns, rns):
+    """URI -> prefix lxml prints for a created node: the binding of the left root; else what Differ.diff registered
+    process-wide from the right root -- etree.register_namespace overwrites, so of several prefixes the right root binds
+    to one URI the LAST one wins."""
+    pe = {}
+    for k, v in lns.items():
+        pe.setdefault(v, k)
+    rpe = {}
+    for k, v in rns.items():
+        if k is not None:
+            rpe[v] = k
+        else:
+            rpe.setdefault(v, k)
+    for v, k in rpe.items():
+        pe.setdefault(v, k)
+    return pe
 
 
 def in_model_domain(desc):
